@@ -20,6 +20,7 @@ TARGET = {
  'C18-m1': [('C18', 'sw')], 'C18-m2': [('C18', 'hw')], 'C18-m3': [('C18', 'L7')],
  'C19-m1': [('C19', None)], 'C19-m2': [('C19', None)],
  'C20-m1': [('C20', 'ALIAS')], 'C20-m2': [('C20', 'KMM')], 'C20-m3': [('C20', 'KMM_f32')],
+ 'C17-m1': [('C17', None)], 'C17-m2': [('C17', None)], 'C11-m1': [('C11', None)], 'C11-m2': [('C11', None)],
  'C04-m1': [('C04', 'O1')], 'C04-m2': [('C04', 'O1')], 'C05-m1': [('C05', None)], 'C05-m2': [('C05', None)],
 }
 
@@ -27,6 +28,9 @@ def run_seed(sid):
     sd = os.path.join(VERIF, 'seeded', sid)
     wt = '/tmp/seedwt/' + sid
     res = {'seed': sid, 'runs': []}
+    subprocess.run(['git', '-C', '/repo', 'worktree', 'remove', '--force', wt], capture_output=True)
+    shutil.rmtree(wt, ignore_errors=True)
+    subprocess.run(['git', '-C', '/repo', 'worktree', 'prune'], capture_output=True)
     subprocess.run(['git', '-C', '/repo', 'worktree', 'add', '-q', '--detach', wt, 'HEAD'], check=False)
     try:
         p = subprocess.run(['git', '-C', wt, 'apply', '--3way', os.path.join(sd, 'patch.diff')], capture_output=True, text=True)
@@ -58,7 +62,7 @@ def run_seed(sid):
 if __name__ == '__main__':
     seeds = sys.argv[1:] or sorted(os.path.basename(d) for d in glob.glob(VERIF + '/seeded/C*'))
     os.makedirs('/tmp/seedwt', exist_ok=True)
-    out = {}
+    out = json.load(open(VERIF + '/seeded/RESULTS.json')) if os.path.exists(VERIF + '/seeded/RESULTS.json') else {}
     with cf.ThreadPoolExecutor(max_workers=int(os.environ.get('SEED_PAR', '2'))) as ex:
         for r in ex.map(run_seed, seeds):
             out[r['seed']] = r
